@@ -145,6 +145,7 @@ fn replay(rf: &ReplayFile) -> Vec<(String, String)> {
         }
         Case::Decode { suite, kind, codec, bytes, expect, note } => {
             let r = match expect.as_str() {
+                "canonical" if note == "serde" => checks::c10::replay_decode_serde(suite, *kind, *codec, &bytes.0),
                 "canonical" => checks::c10::replay_decode(suite, *kind, &bytes.0, note),
                 "reject" => checks::c11::replay_decode(suite, *kind, *codec, &bytes.0),
                 "nopanic" => checks::c12::replay_decode(suite, *kind, *codec, &bytes.0, rf.seed),
